@@ -80,6 +80,9 @@ fn main() {
     let mut from = 0usize;
     let mut timeout = 10_000u64;
     let mut append = false;
+    // the library keeps its graphs alive (reference cycles): a long-lived process grows by
+    // megabytes per analysis, so the driver gets control back every `max_cases` cases (exit 4)
+    let mut max_cases = 250usize;
     let mut i = 3;
     while i < args.len() {
         match args[i].as_str() {
@@ -92,6 +95,10 @@ fn main() {
                 i += 1;
             }
             "--append" => append = true,
+            "--max-cases" => {
+                max_cases = args[i + 1].parse().unwrap();
+                i += 1;
+            }
             _ => {}
         }
         i += 1;
@@ -128,6 +135,10 @@ fn main() {
         // every event is on disk before the next case starts: a hard crash
         // (stack overflow, abort) must not lose the events before it
         out.flush().unwrap();
+        if n >= max_cases {
+            std::fs::remove_file(format!("{}.cur", &args[2])).ok();
+            std::process::exit(4);
+        }
     }
     out.flush().unwrap();
     std::fs::remove_file(format!("{}.cur", &args[2])).ok();
